@@ -27,8 +27,19 @@ class Grammar(qc.QGrammar):
             tq = [0, 0, 1, 2][(b >> 3) % 4]
             flags = F_FINAL | (F_CANCELH if (b >> 5) % 2 else 0) | (F_ACTIVE if (b >> 6) % 4 else 0) | (F_REGH if b2 % 5 == 0 else 0)
             cancel_at = [0, 0, 0, 1, 3][(b2 >> 1) % 5]
+            share = 0
+            if typ == sc.T_READ and (h[16] >> s) & 1:
+                flags |= 64                         # the descriptor is one end of a socketpair (so that a WRITE source can share it)
+            if s > 0 and (h[17] >> s) & 1:
+                # a second source on a descriptor that an earlier source already monitors (one muxnote, several unotes)
+                cand = [x for x in range(s) if P.sources[x]["type"] == sc.T_READ and P.sources[x]["clock"] == 0 and
+                        (typ == sc.T_READ or (typ == sc.T_WRITE and P.sources[x]["flags"] & 64))]
+                if cand and typ in (sc.T_READ, sc.T_WRITE):
+                    share = 1 + cand[b2 % len(cand)]
+                    flags &= ~64
+                    P.features.add("shared-descriptor-%s" % ("read+read" if typ == sc.T_READ else "read+write"))
             P.source(s, typ, tq, flags=flags, hwork=[0, 80, 400, 2000][(b2 >> 4) % 4], cancel_at=cancel_at,
-                     a=20000, b=[100000, 250000, 0][(b2 >> 6) % 3] if typ == sc.T_TIMER else 0, c=0)
+                     a=20000, b=[100000, 250000, 0][(b2 >> 6) % 3] if typ == sc.T_TIMER else 0, c=0, clock=share)
             P.features.add("type=%d" % typ)
         P.nsrc = nsrc
         P.released = set()
@@ -127,7 +138,8 @@ class Check(sc.SCheck):
     asan_share = 1
     leaks = True
     rule = ("part 2 (sources): 1-3 sources of every type (DATA_ADD, TIMER, READ, WRITE, SIGNAL) with a context and a finalizer, with/without cancel and registration "
-            "handlers, active or inactive, on serial / concurrent / global target queues; each source is driven by one owner thread which merges / lets peers produce "
+            "handlers, active or inactive, on serial / concurrent / global target queues, some of them monitoring the SAME descriptor (two READ sources on one pipe end, "
+            "a READ and a WRITE source on one socket); each source is driven by one owner thread which merges / lets peers produce "
             "events, cancels, activates and issues the application's LAST release at a generated point (while handlers are pending or running, before any event, "
             "after a cancel, without any cancel); peers keep producing events afterwards. Everything runs under AddressSanitizer + LeakSanitizer. Oracles: finalizer "
             "exactly once, not before the last release began, after every handler invocation returned, with the source's context, on the target queue; cancel "
@@ -140,7 +152,7 @@ class Check(sc.SCheck):
         return "hook-asan"
 
     def recipe_strategy(self, tier):
-        return qc.recipe_strategy(max_threads=3, max_ops=14 if tier == "quick" else 36, max_bodies=0, body_len=0, header=18, min_ops=4)
+        return qc.recipe_strategy(max_threads=3, max_ops=14 if tier == "quick" else 36, max_bodies=0, body_len=0, header=20, min_ops=4)
 
     def compile(self, recipe, kind="F1", cpu=0, tier="quick"):
         return self.G.compile(recipe, kind, cpu, tier)
